@@ -111,6 +111,10 @@ func VerifValued() {
 		}
 	}
 	closing := v.Param("close") == 1
+	// --from: the report shows the change since the day before the window start (value then, at the
+	// prices known then, is subtracted); "" = the window starts before the journal does
+	before := map[int]string{1: "2020-01-30", 3: "2020-02-01"}[v.Param("window")]
+	windowed := v.Param("window") != 0
 	addKnown("Equity:Equity")
 	var path []string
 	cur := ""
@@ -163,7 +167,7 @@ func VerifValued() {
 			}
 			D := ends[j]
 			switch {
-			case off == 2 && strings.HasPrefix(cur, "Assets"):
+			case off == 2 && strings.HasPrefix(cur, "Assets") && !windowed:
 				zzCheckDetailCell(sh, in, val, ledger, cur, row[1].text, D, got, tol)
 			case zzIsAL(cur):
 				// mark-to-market: sum of positions times the latest price on or before D
@@ -179,9 +183,20 @@ func VerifValued() {
 					if ok {
 						want = want.Add(pos.Mul(p))
 					}
+					if before != "" {
+						pos0 := decimal.Zero
+						for _, e := range ledger {
+							if e.acc == cur && e.com == zzComms[c] && e.day <= before {
+								pos0 = pos0.Add(e.q)
+							}
+						}
+						if p0, ok := zzPriceIn(sh, in, val, c, before); ok {
+							want = want.Sub(pos0.Mul(p0))
+						}
+					}
 				}
 				v.Assert(got.Sub(want).Abs().LessThanOrEqual(tol), "asset-value-is-position-times-latest-price")
-			case strings.HasPrefix(cur, "Income:") && !closing && cur != "Income:I":
+			case strings.HasPrefix(cur, "Income:") && !closing && !windowed && cur != "Income:I":
 				// accumulated revaluation of the mirrored A/L account(s): value now minus value at booking prices
 				want := decimal.Zero
 				hasMirror := false
@@ -206,7 +221,7 @@ func VerifValued() {
 				if hasMirror {
 					v.Assert(got.Sub(want).Abs().LessThanOrEqual(tol), "revaluation-gain-on-mirroring-income-account")
 				}
-			case !closing && !zzIsAL(cur):
+			case !closing && !windowed && !zzIsAL(cur):
 				// income, expense and equity bookings are valued at the price of their booking day
 				want := decimal.Zero
 				direct := false
